@@ -1,3 +1,4 @@
+import RactorModel.Lemmas.GenAdmission
 import RactorModel.Extracted
 import RactorModel.Lemmas.ExitRaceLive
 
@@ -198,6 +199,28 @@ example :
     g.sh.status = 6 ∧ g.sh.name = .succ ∧ g.sh.cleanupRuns = 1 ∧ g.exiter.finished = true
       ∧ g.waiters.map (·.pc) = [.returned true, .returned true] := by decide
 
+/-! ### Translator tie (rs2lean): kernel-checked equivalence between the definitions that
+`extract/rs2lean.py` regenerates from the CURRENT Rust source on every run
+(`RactorModel/Generated/*.lean`) and the hand-written model functions the theorems above are
+about. A semantic change of the Rust function changes the generated text and these stop checking. -/
+
+section XlateTie
+open Generated.Admission
+
+/-- the condition under which `ActorCell::set_status` runs the registry/pg cleanup
+(model: the election at pc `publish`). -/
+theorem generated_set_status_cleanup_condition_eq_model (enq : Except MessagingErr Unit) (s prev : ActorStatus) :
+    ActorCell.set_status_runs_cleanup enq s prev
+      = (decide (s.toNat ≥ ExitRace.stStopping) && decide (prev.toNat < ExitRace.stStopping)) := by
+  cases s <;> cases prev <;> rfl
+
+/-- the condition under which `ActorCell::set_status` notifies the stop listeners. -/
+theorem generated_set_status_notify_condition_eq_model (enq : Except MessagingErr Unit) (s prev : ActorStatus) :
+    ActorCell.set_status_notifies enq s prev
+      = (s.toNat == ExitRace.stStopped && decide (prev.toNat < ExitRace.stStopped)) := by
+  cases s <;> cases prev <;> rfl
+end XlateTie
+
 end C06
 
 #print axioms C06.waiter_returns_only_after_full_stop
@@ -214,3 +237,6 @@ end C06
 #print axioms C06.src_set_status_order
 #print axioms C06.src_wait_and_notify
 #print axioms C06.src_status_discriminants
+-- rs2lean tie
+#print axioms C06.generated_set_status_cleanup_condition_eq_model
+#print axioms C06.generated_set_status_notify_condition_eq_model
